@@ -21,11 +21,12 @@ def dataset(kind, which):
     """two files (which = 0, 1) of the same shape; values are simple functions of the coordinates"""
     times = T[:1] if kind == "single-time" else T
     locs = S[:1] if kind == "single-location" else S
-    n = len(times) * len(L) * len(locs)
+    leads = L[:1] if kind == "single-leadtime" else L
+    n = len(times) * len(leads) * len(locs)
     obs, fcst, pit, cdf, x, ens = [], [], [], [], [], []
     k = 0
     for i, t in enumerate(times):
-        for j, l in enumerate(L):
+        for j, l in enumerate(leads):
             for s in locs:
                 o = (3 * i + 5 * j + 2 * s) % 5
                 f = (2 * i + 3 * j + s + which) % 5 + 0.5 * which
@@ -42,7 +43,7 @@ def dataset(kind, which):
                 x += [fv - 1, fv, fv + 1.5]
                 ens += [fv - 1, fv + 0.5, fv + 1]
                 k += 1
-    return {"times": times, "leads": L, "locs": locs, "lat": [60 + s for s in locs], "lon": [10 + 2 * s for s in locs],
+    return {"times": times, "leads": leads, "locs": locs, "lat": [60 + s for s in locs], "lon": [10 + 2 * s for s in locs],
             "elev": [100 * s for s in locs], "hasObs": True, "obs": obs, "fcst": fcst, "pit": pit,
             "thresholds": [1, 2, 3], "cdf": cdf, "quantiles": [0.1, 0.5, 0.9], "x": x, "members": [0, 1, 2], "ens": ens,
             "variable": {"variable": "Precip", "units": "mm"}}
@@ -127,9 +128,9 @@ def run(ctx):
             buckets.setdefault((c["v"], c["t"]), []).append(c)
         per = max(1, 1100 // len(buckets))
         variants = [c for key in sorted(buckets) for c in rng.sample(buckets[key], min(len(buckets[key]), per))]
-        kinds = ["full", "missing-slice"]
+        kinds = ["full", "missing-slice", "single-leadtime"]
     else:
-        kinds = ["full", "missing-slice", "single-time", "single-location"]
+        kinds = ["full", "missing-slice", "single-time", "single-location", "single-leadtime"]
     jobs = []
     combos = cross + variants
     for n, kind in enumerate(kinds):
